@@ -452,9 +452,23 @@ func runC20(c *Ctx) {
 					}
 					for _, fct := range normCond(iff.Cond, true) {
 						if fct.Op == "<" && fct.Truth {
-							if _, f2, isL := fieldLoad(fct.Y); isL && f2.Name() == "MaxRetries" {
-								if _, isPhi := fct.X.(*ssa.Phi); isPhi {
-									okLoop = true
+							if _, f2, isL := fieldLoad(w.resolveLoad(fct.Y)); isL && f2.Name() == "MaxRetries" {
+								// the counter: a loop phi, or phi+1 of the rotated `for range n` form
+								x := stripIntConv(fct.X)
+								if bo, isB := x.(*ssa.BinOp); isB && bo.Op == token.ADD {
+									if k, isK := constInt(bo.Y); isK && k == 1 {
+										x = bo.X
+									}
+								}
+								if ph, isPhi := x.(*ssa.Phi); isPhi {
+									// loop-carried: one edge is the phi plus one
+									for _, e := range ph.Edges {
+										if bo, isB := e.(*ssa.BinOp); isB && bo.Op == token.ADD && bo.X == ssa.Value(ph) {
+											if k, isK := constInt(bo.Y); isK && k == 1 {
+												okLoop = true
+											}
+										}
+									}
 								}
 							}
 						}
